@@ -122,11 +122,14 @@ def main(tier):
         dw = scratch('c19w')
         rc, err = batch.translate(c17.module(), dw, w2c2=mclib.w2c2_binary())
         if rc != 0:
-            raise mclib.MachineryError('w2c2 failed on the wait/notify module: ' + err)
+            raise mclib.PipelineFailure('w2c2 failed on the wait/notify module', err)
         nprobe = c17.run_e1(chk, dw, be=True)
         chk.add(evaluations=nprobe)
         parts['wait/notify probes (forced BE)'] = {'evaluations': nprobe}
         parts['big-endian RMW path under the scheduler'] = c16_sched.sched_part(chk, tier, be_only=True)
+    except mclib.PipelineFailure as e:
+        mclib.report_pipeline_failure(chk, e, 'bin/check C19 quick')
+        return chk.finish()
     except mclib.MachineryError as e:
         print('MACHINERY-ERROR C19: %s' % e)
         return 2
